@@ -130,18 +130,19 @@ def eval_file_g3(p, rows):
     out.append("Definition s1 := set_g3_momentumFalloffT %s (set_g3_positionFalloff %s "
                "(g3__updateParameters e3 (mk_g3_st 0 0 0 0 0 0 0 0 0 0) %s %s %s %s %s %s))."
                % (R(T), R(L), R(tIn), R(tOut), R(L), R(r), R(sm), R(c)))
-    bound = ("first [assert (%s <= aI <= %s) by (unfold aI; split; interval with (i_prec 130)) "
-             "| assert (%s <= aI <= %s) by (unfold aI; split; interval with (i_prec 130))]"
-             % (R(b1[0]), R(b1[1]), R(b2[0]), R(b2[1])))
-    out.append("""Ltac ev :=
+    out.append("""Ltac bound_a :=
+  match goal with |- context [sqrt ?u / Rabs ?v] =>
+    let a := fresh "a" in set (a := sqrt u / Rabs v);
+    first [ assert (%s <= a <= %s) by (unfold a; split; interval with (i_prec 130))
+          | assert (%s <= a <= %s) by (unfold a; split; interval with (i_prec 130)) ];
+    clearbody a
+  end.
+Ltac ev :=
   unfold comp1, comp2, comp3, g3_decompactify, g3_compactificationDerivatives, g3_compactify,
     g3_totalMapping, g3_term1, g3_term2, g3_term3, g3_term4, g3_term5, s1, g3__updateParameters;
   cbv zeta; fields; unfold atanh_R; rewrite ?tanh_exp;
-  try (match goal with |- context [sqrt ?u / Rabs ?v] => set (aI := sqrt u / Rabs v) end;
-       %s; clearbody aI;
-       try (match goal with |- context [sqrt ?u / Rabs ?v] => set (aO := sqrt u / Rabs v) end;
-            %s; clearbody aO));
-  interval with (i_prec 90).""" % (bound, bound.replace("aI", "aO")))
+  try bound_a; try bound_a;
+  interval with (i_prec 90).""" % (R(b1[0]), R(b1[1]), R(b2[0]), R(b2[1])))
     for kind, x, y in rows:
         comp = "comp" + kind[-1]
         f = {"dec": "g3_decompactify", "jac": "g3_compactificationDerivatives",
@@ -217,25 +218,33 @@ def fd5(f, x, h):
 
 
 class Once:
-    """report each known-defect key at most once per run (with its canonical input)"""
+    """report each failure class (key) once per run, with the first input that shows it;
+    further inputs of the same class are only counted"""
 
     def __init__(self):
-        self.seen = set()
+        self.seen = {}
 
     def __call__(self, ctx, what, rep, key):
-        if key in self.seen:
+        self.seen[key] = self.seen.get(key, 0) + 1
+        if self.seen[key] > 1:
             return
-        self.seen.add(key)
         ctx.fail_input(what, rep, key=key)
 
+    def summary(self, ctx):
+        for k, n in self.seen.items():
+            if n > 1:
+                ctx.log("failure class %s: %d failing inputs in this run (first one "
+                        "reported)" % (k, n))
 
-def check_maps(ctx, g, case, label, three):
+
+def check_maps(ctx, once, g, case, label, three):
     """maps / Jacobians / monotonicity / centre of one grid object"""
     px = "g3-" if three else "simple-"
     z0 = np.zeros(1)
     chi = np.concatenate([np.linspace(-0.999, 0.999, 201), np.asarray(g.chiValues),
                           -1 + np.logspace(-8, -3, 6), 1 - np.logspace(-8, -3, 6)])
     chi = np.unique(chi)
+    chi = chi[np.concatenate([[True], np.diff(chi) > 1e-9])]
     zero = np.zeros_like(chi)
     zf = lambda x: g.decompactify(x, np.zeros_like(x), np.zeros_like(x))[0]
     z = zf(chi)
@@ -246,22 +255,22 @@ def check_maps(ctx, g, case, label, three):
     ctx.count("direct_maps_" + label, case)
     if not np.all(np.isfinite(z)) or not np.all(np.isfinite(J)):
         k = int(np.argmin(np.isfinite(z) & np.isfinite(J)))
-        ctx.fail_input("%s: non-finite map/Jacobian at chi=%r" % (label, chi[k]),
+        once(ctx, "%s: non-finite map/Jacobian at chi=%r" % (label, chi[k]),
                        dict(kind="maps", three=three, case=case, chi=float(chi[k])),
-                       key=px + "nonfinite")
+                       px + "nonfinite")
         return
     d = np.diff(z)
     if not np.all(d > 0):
         k = int(np.argmin(d))
-        ctx.fail_input("%s: position map not increasing between chi=%r and %r (%r -> %r)"
+        once(ctx, "%s: position map not increasing between chi=%r and %r (%r -> %r)"
                        % (label, chi[k], chi[k + 1], z[k], z[k + 1]),
                        dict(kind="maps", three=three, case=case, chi=float(chi[k]),
-                            chi2=float(chi[k + 1])), key=px + "not-increasing")
+                            chi2=float(chi[k + 1])), px + "not-increasing")
     if not np.all(J > 0):
         k = int(np.argmin(J))
-        ctx.fail_input("%s: Jacobian %r <= 0 at chi=%r" % (label, J[k], chi[k]),
+        once(ctx, "%s: Jacobian %r <= 0 at chi=%r" % (label, J[k], chi[k]),
                        dict(kind="maps", three=three, case=case, chi=float(chi[k])),
-                       key=px + "jacobian-nonpositive")
+                       px + "jacobian-nonpositive")
     # Jacobian vs finite differences of the map (step relative to the distance to the ends)
     inner = chi[np.abs(chi) < 0.9995]
     h = 1e-3 * (1 - np.abs(inner))
@@ -271,27 +280,29 @@ def check_maps(ctx, g, case, label, three):
     k = int(np.argmax(rel))
     ctx.count("direct_fd_" + label)
     if rel[k] > 1e-5:
-        ctx.fail_input("%s: d(xi)/d(chi) by finite differences = %r but reported Jacobian "
+        once(ctx, "%s: d(xi)/d(chi) by finite differences = %r but reported Jacobian "
                        "= %r at chi=%r" % (label, fd[k], Ji[k], inner[k]),
                        dict(kind="maps", three=three, case=case, chi=float(inner[k]),
-                            fd=float(fd[k]), jac=float(Ji[k])), key=px + "jacobian-mismatch")
+                            fd=float(fd[k]), jac=float(Ji[k])), px + "jacobian-mismatch")
     # centre and slope at the centre
     zc = float(g.decompactify(np.array(0.0), np.array(0.0), np.array(0.0))[0])
     want = float(g.wallCenter) if three else 0.0
     if abs(zc - want) > 1e-12 * scale:
-        ctx.fail_input("%s: chi=0 maps to %r, wall centre is %r" % (label, zc, want),
-                       dict(kind="maps", three=three, case=case, chi=0.0), key=px + "centre")
+        once(ctx, "%s: chi=0 maps to %r, wall centre is %r" % (label, zc, want),
+                       dict(kind="maps", three=three, case=case, chi=0.0), px + "centre")
     if three:
         j0 = float(g.compactificationDerivatives(np.array(0.0), np.array(0.0),
                                                  np.array(0.0))[0])
         w = g.wallThickness / g.ratioPointsWall
         if abs(j0 - w) > 1e-9 * w:
-            ctx.fail_input("%s: slope at the centre %r, L/r = %r" % (label, j0, w),
+            once(ctx, "%s: slope at the centre %r, L/r = %r" % (label, j0, w),
                            dict(kind="maps", three=three, case=case, chi=0.0),
-                           key="g3-slope-centre")
+                           "g3-slope-centre")
     # momentum directions: monotone, Jacobian vs finite differences, inverse both ways
     rz = np.unique(np.concatenate([np.linspace(-0.999, 0.999, 101), np.asarray(g.rzValues)]))
     rp = np.unique(np.concatenate([np.linspace(-1.0, 0.999, 101), np.asarray(g.rpValues)]))
+    rz = rz[np.concatenate([[True], np.diff(rz) > 1e-9])]
+    rp = rp[np.concatenate([[True], np.diff(rp) > 1e-9])]
     for name, xs, idx in (("pz", rz, 1), ("pp", rp, 2)):
         def f(x, idx=idx):
             a = [np.zeros_like(x)] * 3
@@ -309,38 +320,38 @@ def check_maps(ctx, g, case, label, three):
             return g.compactify(*a)[idx]
         v = f(xs)
         if not np.all(np.diff(v) > 0):
-            ctx.fail_input("%s: %s map not increasing" % (label, name),
+            once(ctx, "%s: %s map not increasing" % (label, name),
                            dict(kind="maps", three=three, case=case, direction=name),
-                           key=px + name + "-not-increasing")
+                           px + name + "-not-increasing")
         xi = xs[(xs > -0.9995) & (xs < 0.9995)]
         hh = 1e-3 * (1 - np.abs(xi))
         relm = np.abs(fd5(f, xi, hh) - fj(xi)) / np.abs(fj(xi))
         if relm.max() > 1e-5:
             k = int(np.argmax(relm))
-            ctx.fail_input("%s: %s Jacobian differs from finite differences at %r"
+            once(ctx, "%s: %s Jacobian differs from finite differences at %r"
                            % (label, name, xi[k]),
                            dict(kind="maps", three=three, case=case, direction=name,
-                                x=float(xi[k])), key=px + name + "-jacobian-mismatch")
+                                x=float(xi[k])), px + name + "-jacobian-mismatch")
         back = fc(v)
         if np.max(np.abs(back - xs)) > 1e-9:
             k = int(np.argmax(np.abs(back - xs)))
-            ctx.fail_input("%s: compactify(decompactify(%r)) = %r in direction %s"
+            once(ctx, "%s: compactify(decompactify(%r)) = %r in direction %s"
                            % (label, xs[k], back[k], name),
                            dict(kind="maps", three=three, case=case, direction=name,
-                                x=float(xs[k])), key=px + name + "-inverse")
+                                x=float(xs[k])), px + name + "-inverse")
     if name == "pp":
         if abs(float(f(np.array(-1.0)))) > 1e-12 * abs(g.momentumFalloffT):
-            ctx.fail_input("%s: rho_par=-1 does not map to p_par=0" % label,
-                           dict(kind="maps", three=three, case=case), key=px + "pp-origin")
+            once(ctx, "%s: rho_par=-1 does not map to p_par=0" % label,
+                           dict(kind="maps", three=three, case=case), px + "pp-origin")
     # cached arrays are the maps of the compact arrays
     xi_, pz_, pp_ = g.decompactify(g.chiValues, g.rzValues, g.rpValues)
     d1, d2, d3 = g.compactificationDerivatives(g.chiValues, g.rzValues, g.rpValues)
     for nm, val in (("xiValues", xi_), ("pzValues", pz_), ("ppValues", pp_),
                     ("dxidchi", d1), ("dpzdrz", d2), ("dppdrp", d3)):
         if not np.allclose(getattr(g, nm), val, rtol=1e-12, atol=1e-13 * scale):
-            ctx.fail_input("%s: cached %s differs from the map of the compact grid"
+            once(ctx, "%s: cached %s differs from the map of the compact grid"
                            % (label, nm), dict(kind="maps", three=three, case=case, attr=nm),
-                           key="cache-stale:" + nm)
+                           "cache-stale:" + nm)
     # position round trip
     inner = chi[np.abs(chi) < 0.999]
     back = g.compactify(zf(inner), np.zeros_like(inner), np.zeros_like(inner))[0]
@@ -455,8 +466,8 @@ def check_ops(ctx, once, rng, three, nseq, nops):
         try:
             res = ops_mismatch_ignoring(jp(init), jops(ops), three, M, N, spacing)
         except Exception as ex:   # noqa: BLE001
-            ctx.fail_input("rescaling sequence raised %r" % ex,
-                           dict(kind="ops", **case), key="rescale-raises")
+            once(ctx, "rescaling sequence raised %r" % ex,
+                           dict(kind="ops", **case), "rescale-raises")
             continue
         if res is None:
             continue
@@ -472,11 +483,11 @@ def check_ops(ctx, once, rng, three, nseq, nops):
                 if r2 is not None and r2[0] == len(trial) and set(r2[1]) & set(bad):
                     ops, changed = trial, True
                     break
-        ctx.fail_input(
+        once(ctx, 
             "after %d rescaling call(s) %s differ(s) from a freshly constructed grid "
             "(three-scale=%s, ops=%s)" % (len(ops), bad, three, jops(ops)),
             dict(kind="ops", three=three, M=M, N=N, spacing=spacing, init=jp(init),
-                 ops=jops(ops), differs=bad), key="rescale-vs-new:" + bad[0])
+                 ops=jops(ops), differs=bad), "rescale-vs-new:" + bad[0])
 
 
 def ops_mismatch_ignoring(init, jo, three, M, N, spacing, ignore=("positionFalloff",)):
@@ -571,7 +582,7 @@ def run(ctx):
     # --- (3) model vs implementation: certified interval evaluation ---------------------
     files = []
     if gen_ok:
-        nsets = ctx.n(4, 24)
+        nsets = ctx.n(8, 32)
         npts = ctx.n(3, 6)
         for m in range(nsets):
             p = rand_g3(rng, equal=(m % 4 == 0), near_bound=(m % 3 == 1))
@@ -583,7 +594,7 @@ def run(ctx):
                           ctx.write("Cases/Eval3_%d.v" % m, eval_file_g3(p, rows))))
             if m == 0:
                 ctx.sample(dict(params=jp(p), rows=[(k, str(x), y) for k, x, y in rows[:4]]))
-        for m in range(ctx.n(1, 6)):
+        for m in range(ctx.n(2, 8)):
             L, T = dy(rng, 16, 31, -11, 3), dy(rng, 8, 31, -6, 3)
             g = mk_g1(L, T)
             rows = impl_rows(g, rand_compact(rng, npts), rand_compact(rng, 2),
@@ -625,17 +636,17 @@ def run(ctx):
     # --- (4) the property on the implementation -----------------------------------------
     replay_witnesses(ctx, once)
     worst_rt = 0.0
-    for m in range(ctx.n(40, 600)):
+    for m in range(ctx.n(150, 1500)):
         p = rand_g3(rng, dyadic=(m % 2 == 0))
         M, N = rng.choice([(6, 5), (8, 5), (11, 7), (20, 11), (40, 11)])
         spacing = rng.choice(["Spectral", "Spectral", "Uniform"])
         case = dict(params=jp(p), M=M, N=N, spacing=spacing)
         try:
             g = mk_g3(p, M, N, spacing)
-            rt = check_maps(ctx, g, case, "three-scale", True)
+            rt = check_maps(ctx, once, g, case, "three-scale", True)
         except Exception as ex:   # noqa: BLE001
-            ctx.fail_input("Grid3Scales raised %r" % ex, dict(kind="maps", three=True,
-                                                            case=case), key="g3-raises")
+            once(ctx, "Grid3Scales raised %r" % ex, dict(kind="maps", three=True,
+                                                            case=case), "g3-raises")
             continue
         ctx.count("g3_grid", case, bucket="%s|tails %s|L~1e%d" % (
             spacing, "equal" if p[0] == p[1] else "unequal",
@@ -644,7 +655,7 @@ def run(ctx):
             worst_rt = max(worst_rt, rt[0])
     ctx.log("three-scale: max |compactify(decompactify(chi)) - chi| over the sweep = %.3g "
             "(known finding g3-compactify-not-inverse)" % worst_rt)
-    for m in range(ctx.n(12, 150)):
+    for m in range(ctx.n(40, 300)):
         L = dy(rng, 16, 31, -11, 3) if m % 2 == 0 else Fraction(10 ** rng.uniform(-2, 2))
         T = dy(rng, 8, 31, -6, 3)
         M, N = rng.choice([(6, 5), (8, 5), (11, 7), (20, 11)])
@@ -652,18 +663,19 @@ def run(ctx):
         case = dict(L=str(L), T=str(T), M=M, N=N, spacing=spacing)
         try:
             g = mk_g1(L, T, M, N, spacing)
-            rt = check_maps(ctx, g, case, "simple", False)
+            rt = check_maps(ctx, once, g, case, "simple", False)
         except Exception as ex:   # noqa: BLE001
-            ctx.fail_input("Grid raised %r" % ex, dict(kind="maps", three=False, case=case),
-                           key="simple-raises")
+            once(ctx, "Grid raised %r" % ex, dict(kind="maps", three=False, case=case),
+                           "simple-raises")
             continue
         ctx.count("simple_grid", case, bucket=spacing)
         if rt is not None and rt[0] > 1e-9:
-            ctx.fail_input("Grid: compactify(decompactify(%r)) is off by %.3g" % (rt[1], rt[0]),
+            once(ctx, "Grid: compactify(decompactify(%r)) is off by %.3g" % (rt[1], rt[0]),
                            dict(kind="maps", three=False, case=case, chi=rt[1]),
-                           key="simple-inverse")
-    check_ops(ctx, once, rng, True, ctx.n(30, 400), ctx.n(5, 8))
-    check_ops(ctx, once, rng, False, ctx.n(10, 100), ctx.n(5, 8))
+                           "simple-inverse")
+    check_ops(ctx, once, rng, True, ctx.n(80, 800), ctx.n(5, 8))
+    check_ops(ctx, once, rng, False, ctx.n(30, 200), ctx.n(5, 8))
+    once.summary(ctx)
 
     ctx.cov["rule"] = (
         "three-scale grids: thickness dyadic m*2^e over 0.008..250 (bucketed by decade), "
